@@ -173,6 +173,10 @@ def main(argv=None) -> int:
                 errors.append(f"vacuity: no feasible exit path in {r.unit}")
             if r.paths == 0:
                 errors.append(f"vacuity: zero complete paths in {r.unit}")
+        if not r.errors and not r.undecided:
+            for k, v in sorted(r.covers.items()):
+                if k.endswith(".continues") and not v:
+                    errors.append(f"vacuity: no path of {r.unit} continues after the call {k.split('.call.', 1)[1][:-10]} (the callee's contract contradicts the state at every call)")
         for ob in r.obligations:
             if ob.props and prop not in ob.props:
                 continue
